@@ -501,35 +501,9 @@ func n4(w *World, r *Report) {
 	}
 	fin := needFn(r, "N-4", w, fref{"ctrlers/vm/evm", "StateDBWrapper", "Finish"})
 	if fin != nil {
-		var setN, setB, mark ssa.CallInstruction
-		for _, c := range CallsIn(fin) {
-			switch callName(c.Common()) {
-			case "SetNonce":
-				setN = c
-			case "SetBalance":
-				setB = c
-			case "SetAccountCommittable":
-				mark = c
-			}
-		}
-		ok := setN != nil && mark != nil && setB != nil
-		if ok {
-			rcv, a := callRecvArgs(setN.Common())
-			_, ma := callRecvArgs(mark.Common())
-			ok = strings.HasPrefix(w.Canon(a[0]), "recv.StateDB.GetNonce(") && len(ma) == 2 && sameValue(ma[0], rcv) && w.Canon(ma[1]) == "recv.exec" && instrDominates(setN, mark) &&
-				strings.HasPrefix(w.Canon(rcv), "recv.acctHandler.FindOrNewAccount(") && strings.HasSuffix(w.Canon(rcv), ", recv.exec)")
-		}
-		// inside the loop over all accessed addresses
-		inLoop := false
-		if setN != nil {
-			for _, b := range fin.Blocks {
-				for _, in := range b.Instrs {
-					if rg, isR := in.(*ssa.Range); isR && w.Canon(rg.X) == "recv.accessedObjAddrs" {
-						inLoop = true
-					}
-				}
-			}
-		}
+		_, okN, why := w.finishWriteBack(fin)
+		ok, inLoop := okN, true
+		_ = why
 		r.Check(ok && inLoop, "N-4", "Finish:nonce-write-back", "for every accessed address the EVM's nonce is copied to the account, which is then marked in the overlay selected by the wrapper's exec flag", "Finish does not copy the EVM nonce back to every accessed account before marking it", fnSite(w, fin))
 	}
 }
